@@ -478,61 +478,45 @@ Proof.
 Qed.
 Print Assumptions C08_fmt_payload_model_agrees.
 
-(** ** FALSE in floating point (laws of the exact carriers only): concrete witnesses *)
-Theorem C08_float_add_assoc_refuted_binary32 :
-  exists x y z, ff_add 24 128 prec32 emax32 (ff_add 24 128 prec32 emax32 x y) z
-             <> ff_add 24 128 prec32 emax32 x (ff_add 24 128 prec32 emax32 y z).
-Proof. exact ff_add_assoc_refuted_binary32. Qed.
-Print Assumptions C08_float_add_assoc_refuted_binary32.
-Theorem C08_float_mul_assoc_refuted_binary32 :
-  exists x y z, ff_real_mul 24 128 prec32 emax32 (ff_real_mul 24 128 prec32 emax32 x y) z
-             <> ff_real_mul 24 128 prec32 emax32 x (ff_real_mul 24 128 prec32 emax32 y z).
-Proof. exact ff_mul_assoc_refuted_binary32. Qed.
-Print Assumptions C08_float_mul_assoc_refuted_binary32.
-Theorem C08_float_real_distr_refuted_binary32 :
-  exists x y z, ff_real_mul 24 128 prec32 emax32 x (ff_add 24 128 prec32 emax32 y z)
-             <> ff_add 24 128 prec32 emax32 (ff_real_mul 24 128 prec32 emax32 x y) (ff_real_mul 24 128 prec32 emax32 x z).
-Proof. exact ff_real_distr_refuted_binary32. Qed.
-Print Assumptions C08_float_real_distr_refuted_binary32.
-Theorem C08_float_add_assoc_refuted_binary64 :
-  exists x y z, ff_add 53 1024 prec64 emax64 (ff_add 53 1024 prec64 emax64 x y) z
-             <> ff_add 53 1024 prec64 emax64 x (ff_add 53 1024 prec64 emax64 y z).
-Proof. exact ff_add_assoc_refuted_binary64. Qed.
-Print Assumptions C08_float_add_assoc_refuted_binary64.
-Theorem C08_float_mul_assoc_refuted_binary64 :
-  exists x y z, ff_real_mul 53 1024 prec64 emax64 (ff_real_mul 53 1024 prec64 emax64 x y) z
-             <> ff_real_mul 53 1024 prec64 emax64 x (ff_real_mul 53 1024 prec64 emax64 y z).
-Proof. exact ff_mul_assoc_refuted_binary64. Qed.
-Print Assumptions C08_float_mul_assoc_refuted_binary64.
-Theorem C08_float_real_distr_refuted_binary64 :
-  exists x y z, ff_real_mul 53 1024 prec64 emax64 x (ff_add 53 1024 prec64 emax64 y z)
-             <> ff_add 53 1024 prec64 emax64 (ff_real_mul 53 1024 prec64 emax64 x y) (ff_real_mul 53 1024 prec64 emax64 x z).
-Proof. exact ff_real_distr_refuted_binary64. Qed.
-Print Assumptions C08_float_real_distr_refuted_binary64.
+(** ** FALSE in floating point (laws of the exact carriers only): concrete witnesses
+    (binary32: 0.1f, 0.1f, 0.7f / 0.1f, 0.1f, 10f / 0.1f*(0.1f+0.7f);
+     binary64: 0.1, 0.1, 1.1 / 0.1, 0.1, 0.3 / 0.1*(0.1+0.3)) *)
+Theorem C08_float_assoc_distr_refuted_binary32 :
+  (exists x y z, ff_add 24 128 prec32 emax32 (ff_add 24 128 prec32 emax32 x y) z
+              <> ff_add 24 128 prec32 emax32 x (ff_add 24 128 prec32 emax32 y z)) /\
+  (exists x y z, ff_real_mul 24 128 prec32 emax32 (ff_real_mul 24 128 prec32 emax32 x y) z
+              <> ff_real_mul 24 128 prec32 emax32 x (ff_real_mul 24 128 prec32 emax32 y z)) /\
+  (exists x y z, ff_real_mul 24 128 prec32 emax32 x (ff_add 24 128 prec32 emax32 y z)
+              <> ff_add 24 128 prec32 emax32 (ff_real_mul 24 128 prec32 emax32 x y) (ff_real_mul 24 128 prec32 emax32 x z)).
+Proof. exact (conj ff_add_assoc_refuted_binary32 (conj ff_mul_assoc_refuted_binary32 ff_real_distr_refuted_binary32)). Qed.
+Print Assumptions C08_float_assoc_distr_refuted_binary32.
+
+Theorem C08_float_assoc_distr_refuted_binary64 :
+  (exists x y z, ff_add 53 1024 prec64 emax64 (ff_add 53 1024 prec64 emax64 x y) z
+              <> ff_add 53 1024 prec64 emax64 x (ff_add 53 1024 prec64 emax64 y z)) /\
+  (exists x y z, ff_real_mul 53 1024 prec64 emax64 (ff_real_mul 53 1024 prec64 emax64 x y) z
+              <> ff_real_mul 53 1024 prec64 emax64 x (ff_real_mul 53 1024 prec64 emax64 y z)) /\
+  (exists x y z, ff_real_mul 53 1024 prec64 emax64 x (ff_add 53 1024 prec64 emax64 y z)
+              <> ff_add 53 1024 prec64 emax64 (ff_real_mul 53 1024 prec64 emax64 x y) (ff_real_mul 53 1024 prec64 emax64 x z)).
+Proof. exact (conj ff_add_assoc_refuted_binary64 (conj ff_mul_assoc_refuted_binary64 ff_real_distr_refuted_binary64)). Qed.
+Print Assumptions C08_float_assoc_distr_refuted_binary64.
 
 (** ** the primitive-float model of part (C) is the binary64 instance (Flocq's Prim2B), so the
     former tier-B items hold on it: x*1 = x, monotonicity on [0,inf], exact Viterbi
-    distributivity *)
-Theorem C08_float_prim_mul_one :
-  forall x, PrimFloat.mul x PrimFloat.one = x /\ PrimFloat.mul PrimFloat.one x = x.
-Proof. exact prim_mul_one. Qed.
-Print Assumptions C08_float_prim_mul_one.
-Theorem C08_float_prim_real_mul_one :
-  forall x, PrimFloat.is_nan x = false -> x <> PrimFloat.neg_infinity ->
-    freal_mul x PrimFloat.one = x /\ freal_mul PrimFloat.one x = x.
-Proof. exact prim_real_mul_one. Qed.
-Print Assumptions C08_float_prim_real_mul_one.
-Theorem C08_float_prim_real_monotone :
-  forall a b c, PrimFloat.leb PrimFloat.zero a = true -> PrimFloat.leb PrimFloat.zero c = true -> PrimFloat.leb a b = true ->
-    PrimFloat.leb (freal_add a c) (freal_add b c) = true /\ PrimFloat.leb (freal_mul a c) (freal_mul b c) = true.
-Proof. exact prim_real_mono. Qed.
-Print Assumptions C08_float_prim_real_monotone.
-Theorem C08_float_prim_viterbi_distr :
-  forall a b c, PrimFloat.is_nan a = false -> PrimFloat.is_nan b = false ->
-    fvit_mul (fvit_add a b) c = fvit_add (fvit_mul a c) (fvit_mul b c).
-Proof. exact prim_vit_mul_max_distr. Qed.
-Print Assumptions C08_float_prim_viterbi_distr.
-Theorem C08_float_prim_viterbi_mul_monotone :
-  forall a b c, PrimFloat.leb a b = true -> PrimFloat.leb (fvit_mul a c) (fvit_mul b c) = true.
-Proof. exact prim_vit_mul_mono. Qed.
-Print Assumptions C08_float_prim_viterbi_mul_monotone.
+    distributivity, the Viterbi star law *)
+Theorem C08_float_prim_identity_monotone :
+  (forall x, PrimFloat.mul x PrimFloat.one = x /\ PrimFloat.mul PrimFloat.one x = x) /\
+  (forall x, PrimFloat.is_nan x = false -> x <> PrimFloat.neg_infinity ->
+     freal_mul x PrimFloat.one = x /\ freal_mul PrimFloat.one x = x) /\
+  (forall a b c, PrimFloat.leb PrimFloat.zero a = true -> PrimFloat.leb PrimFloat.zero c = true -> PrimFloat.leb a b = true ->
+     PrimFloat.leb (freal_add a c) (freal_add b c) = true /\ PrimFloat.leb (freal_mul a c) (freal_mul b c) = true).
+Proof. exact (conj prim_mul_one (conj prim_real_mul_one prim_real_mono)). Qed.
+Print Assumptions C08_float_prim_identity_monotone.
+
+Theorem C08_float_prim_viterbi :
+  (forall a b c, PrimFloat.is_nan a = false -> PrimFloat.is_nan b = false ->
+     fvit_mul (fvit_add a b) c = fvit_add (fvit_mul a c) (fvit_mul b c)) /\
+  (forall a b c, PrimFloat.leb a b = true -> PrimFloat.leb (fvit_mul a c) (fvit_mul b c) = true) /\
+  (forall x, fvit_star x = fvit_add PrimFloat.zero (fvit_mul x (fvit_star x))).
+Proof. exact (conj prim_vit_mul_max_distr (conj prim_vit_mul_mono prim_vit_star_unfold)). Qed.
+Print Assumptions C08_float_prim_viterbi.
